@@ -1,5 +1,6 @@
 ---- MODULE Gen_diamond ----
 EXTENDS Gen, MC_diamond
+mcScriptEdit2 == << <<"build", "">>, <<"edit", "a", "S1">>, <<"edit", "b", "S1">>, <<"build", "">> >>
 mcScriptTamper == << <<"build", "">>, <<"edit", "p", "J">>, <<"del", "q">>, <<"build", "">> >>
 CexErrors == Cex("C04_ErrorsExact", C04_ErrorsExact)
 ====
